@@ -8,9 +8,11 @@ import (
 
 var (
 	errPathNotFound = errors.New("path does not exist")
-	setJSONOptions  = &sjson.Options{
-		Optimistic:     true,
-		ReplaceInPlace: true,
+	// ReplaceInPlace must stay off: it writes into the input buffer (which can be the
+	// []byte the user passed to MatchJSON) and sjson silently skips the replacement
+	// when the new value needs escaping and fits in place.
+	setJSONOptions = &sjson.Options{
+		Optimistic: true,
 	}
 )
 
